@@ -52,6 +52,8 @@ def _bound_names(fd: ast.FunctionDef) -> Set[str]:
             out.add(n.arg)
         elif isinstance(n, ast.ExceptHandler) and n.name:
             out.add(n.name)
+        elif isinstance(n, ast.FunctionDef):
+            out.add(n.name)
         elif isinstance(n, (ast.Import, ast.ImportFrom)):
             for al in n.names:
                 out.add((al.asname or al.name).split(".")[0])
@@ -85,8 +87,12 @@ def can_inline(fd: ast.AST) -> bool:
     if not body or len(body) > 40:
         return False
     for n in _walk_local(fd):
-        if isinstance(n, (ast.Yield, ast.YieldFrom, ast.Await, ast.Global, ast.Nonlocal, ast.FunctionDef, ast.AsyncFunctionDef, ast.ClassDef)):
+        if isinstance(n, (ast.Yield, ast.YieldFrom, ast.Await, ast.Global, ast.Nonlocal, ast.AsyncFunctionDef, ast.ClassDef)):
             return False
+        if isinstance(n, ast.FunctionDef):
+            # a local closure is fine when it is plain (no decorators, no nonlocal/global, no yield)
+            if n.decorator_list or any(isinstance(x, (ast.Nonlocal, ast.Global, ast.Yield, ast.YieldFrom, ast.Return)) and not isinstance(x, ast.Return) for x in ast.walk(n)):
+                return False
         if isinstance(n, ast.Call) and isinstance(n.func, ast.Name) and n.func.id == fd.name:
             return False
         if isinstance(n, ast.Call) and isinstance(n.func, ast.Attribute) and n.func.attr == fd.name and isinstance(n.func.value, ast.Name) and n.func.value.id in ("self", "cls"):
@@ -116,6 +122,12 @@ class _Rename(ast.NodeTransformer):
     def visit_arg(self, n: ast.arg):
         if n.arg in self.rename:
             n.arg = self.rename[n.arg]
+        return n
+
+    def visit_FunctionDef(self, n: ast.FunctionDef):
+        if n.name in self.rename:
+            n.name = self.rename[n.name]
+        self.generic_visit(n)
         return n
 
     def visit_ExceptHandler(self, n: ast.ExceptHandler):
